@@ -9,10 +9,22 @@
    Map level: the sequential table model reports the user function's side
    effect exactly when the specification does (theorems C05_map_compute_once and C05_map_loadorcompute_once), also when the insert
    first has to grow the table (the grow-retry precedes the call in do_compute);
-   interleavings of the map internals are C03/C04 (see there). *)
+   interleavings of the map internals are C03/C04 (see there).
+   EVERY schedule of the concurrent machine XMachine (mapof.go; replayed step by
+   step against the real code, user-function calls included): C05_x_fn_at_most_once
+   -- from the invocation of a call on, the calling thread evaluates the user
+   function at most once, whatever retries the call goes through (bucket found
+   locked by a resize, table replaced meanwhile, chain full -> grow -> retry,
+   waiting for another thread's resize); and as long as a deciding step of the
+   call is still reachable (cdone = false) it has not evaluated it at all.  The
+   evaluation happens in the deciding step, under the bucket lock, after the checks
+   of the resizing flag and of the table pointer (XMachine.step_pc, PW_ChkTab /
+   PW_Sum). *)
 From CacheV Require Import Base SpecMap Client CacheModel Ops SpecTTL Lin Conc TableModel.
 From CacheV.proofs Require Import C01_sim C02_good C02_methods C02_lin C05_spec C11_lists C11_table C05_map.
 From Coq Require Import NArith.
+From CacheV Require Import XMachine.
+From CacheV.proofs Require Import X_c13 X_fn.
 
 Theorem C05_single_winner :
   forall (K V : Type) (eqd : forall a b : K, {a = b} + {a <> b}) (zero : V)
@@ -71,3 +83,36 @@ Proof.
   intros K V A eqd hash idx tag nslots seeds variant g s Hidx. exact (loadorcompute_once eqd hash idx tag nslots seeds variant g s Hidx).
 Qed.
 Print Assumptions C05_map_loadorcompute_once.
+
+(* ---------------- every schedule (MapOf machine) ---------------- *)
+
+Theorem C05_x_fn_at_most_once :
+  forall (K V : Type) (eqd : forall a b : K, {a = b} + {a <> b})
+         (hash : K -> N -> N) (idx : N -> nat -> nat) (tag : N -> N) (nslots : nat) (seeds : nat -> N)
+         (grow_needed shrink_policy : nat -> Z -> bool) (probe : list (option N) -> N -> list nat)
+         (nstripes : nat -> nat) (minlen : nat) (grow_only : bool),
+    xhyps idx nstripes minlen ->
+    forall len0 todo sched t, (0 < len0)%nat ->
+    let r := @xrun K V eqd hash idx tag nslots seeds grow_needed shrink_policy probe nstripes minlen grow_only
+                   (xinit nslots seeds nstripes len0 todo) sched in
+    (fnc t 0 (snd r) <= 1)%nat /\ (cdone (g_pc (fst r) t) = false -> fnc t 0 (snd r) = 0%nat).
+Proof.
+  intros K V eqd hash idx tag nslots seeds g sh probe nstripes minlen grow_only [H1 [H2 H3]] len0 todo sched t Hl.
+  apply (fn_at_most_once eqd hash idx tag nslots seeds g sh probe nstripes minlen grow_only H1 H2 H3 len0 todo sched t Hl).
+Qed.
+Print Assumptions C05_x_fn_at_most_once.
+
+(* non-vacuity: thread 0 computes on an absent key with an observable function; before the
+   deciding step it has evaluated nothing and a decision is still to come, after it the count is 1 *)
+Definition ex_xrun05 sched :=
+  @xrun nat nat Nat.eq_dec (fun _ _ => 5%N) (fun h len => (N.to_nat h mod len)%nat) (fun h => h) 2%nat (fun _ => 0%N)
+        (fun _ _ => false) (fun _ _ => false) (fun tags tg => filter (fun i => match nth i tags None with Some t => N.eqb t tg | None => false end) (seq 0%nat (length tags)))
+        (fun _ => 1%nat) 1%nat false
+        (xinit 2%nat (fun _ => 0%N) (fun _ => 1%nat) 1%nat
+               (fun t => if Nat.eqb t 0%nat then [XCompute 7%nat (fun _ => Some 1%nat) true false false] else []))
+        sched.
+Example C05_x_nonvacuous :
+  cdone (g_pc (fst (ex_xrun05 [0; 0; 0; 0]%nat)) 0%nat) = false /\ fnc 0%nat 0%nat (snd (ex_xrun05 [0; 0; 0; 0]%nat)) = 0%nat
+  /\ fnc 0%nat 0%nat (snd (ex_xrun05 (repeat 0%nat 12))) = 1%nat /\ g_pc (fst (ex_xrun05 (repeat 0%nat 12))) 0%nat = PIdle.
+Proof. vm_compute. repeat split; reflexivity. Qed.
+Print Assumptions C05_x_nonvacuous.
